@@ -449,6 +449,8 @@ def run(chk, facts, tier):
     optional_guard(chk, facts)
     traversal(chk, facts)
     mode_monotone(chk, facts)
+    from rules import c03_validate
+    c03_validate.check(chk, facts)
     # the soundness statement quantifies over requests the library's own request validation accepts: the record
     # typechecker behind it must reject undeclared / missing attributes (shared with C11)
     from rules import c11_record
